@@ -661,8 +661,9 @@ tpt_ev_post(int op, tp_event_p ev, tp_udata_p tp_udata) {
 		tfd = TPDATA_TFD_GET(tp_udata->tpdata);
 		switch (op) {
 		case TP_CTL_DEL: /* Delete timer. */
-			if (-1 == tfd)
-				return (ENOENT);
+			if (-1 == tfd ||
+			    TP_EV_TIMER != TPDATA_EVENT_GET(tp_udata->tpdata))
+				return (ENOENT); /* Not a timer here. */
 			error = 0;
 err_out_timer:
 			/* close() alone is not enough if child process hold the descriptor. */
@@ -671,8 +672,9 @@ err_out_timer:
 			tp_udata->tpdata = 0;
 			return (error);
 		case TP_CTL_DISABLE:
-			if (-1 == tfd)
-				return (ENOENT);
+			if (-1 == tfd ||
+			    TP_EV_TIMER != TPDATA_EVENT_GET(tp_udata->tpdata))
+				return (ENOENT); /* Not a timer here. */
 			tp_udata->tpdata |= TPDATA_F_DISABLED;
 			memset(&new_tmr, 0x00, sizeof(new_tmr));
 			if (-1 == timerfd_settime(tfd, 0, &new_tmr, NULL)) {
@@ -756,8 +758,9 @@ err_out_timer:
 		switch (op) {
 		case TP_CTL_DEL: /* Delete proc. */
 		case TP_CTL_DISABLE:
-			if (-1 == tfd)
-				return (ENOENT);
+			if (-1 == tfd ||
+			    TP_EV_PROC != TPDATA_EVENT_GET(tp_udata->tpdata))
+				return (ENOENT); /* Not a process watch here. */
 			error = 0;
 err_out_proc:
 			/* close() alone is not enough if child process hold the descriptor. */
@@ -857,6 +860,7 @@ tpt_loop(tpt_p tpt) {
 	tp_p tp;
 	int cnt, itm, tfd;
 	uint16_t tpev_flags;
+	uint64_t tpdata;
 	struct epoll_event epev;
 	tp_event_t ev;
 	tp_udata_p tp_udata;
@@ -900,11 +904,16 @@ tpt_loop(tpt_p tpt) {
 				continue;
 			}
 		}
-		if (0 != (TPDATA_F_DISABLED & tp_udata->tpdata))
+		/* One look: on pool virtual thread other thread may take the
+		 * same event and zeroize / change tpdata at any time. */
+		tpdata = (*((volatile uint64_t*)&tp_udata->tpdata));
+		if (0 == tpdata) /* Deleted / one shot done (live: ADDED or tfd). */
+			continue;
+		if (0 != (TPDATA_F_DISABLED & tpdata))
 			continue; /* Do not process disabled events. */
 		/* Translate ep event to thread poll event. */
-		ev.event = TPDATA_EVENT_GET(tp_udata->tpdata);
-		tpev_flags = TPDATA_FLAGS_GET(tp_udata->tpdata, ev.event);
+		ev.event = TPDATA_EVENT_GET(tpdata);
+		tpev_flags = TPDATA_FLAGS_GET(tpdata, ev.event);
 		ev.flags = 0;
 		ev.fflags = 0;
 		if (0 != (TP_F_DISPATCH & tpev_flags) &&
@@ -941,7 +950,7 @@ tpt_loop(tpt_p tpt) {
 			//ioctl((int)tp_udata->ident, FIONREAD, &ev.data);
 			break;
 		case TP_EV_TIMER: /* Timer. */
-			tfd = TPDATA_TFD_GET(tp_udata->tpdata);
+			tfd = TPDATA_TFD_GET(tpdata);
 			if (((ssize_t)sizeof(uint64_t)) != read(tfd, &ev.data,
 			    sizeof(uint64_t)))
 				continue; /* Other thread take this expiration (pool virtual thread). */
@@ -963,8 +972,8 @@ tpt_loop(tpt_p tpt) {
 			ev.data = (uint64_t)itm;
 			/* Close pidfd. */
 			/* close() alone is not enough if child process hold the descriptor. */
-			epoll_ctl((int)tp_udata->tpt->io_fd, EPOLL_CTL_DEL, TPDATA_TFD_GET(tp_udata->tpdata), &epev);
-			close(TPDATA_TFD_GET(tp_udata->tpdata));
+			epoll_ctl((int)tp_udata->tpt->io_fd, EPOLL_CTL_DEL, TPDATA_TFD_GET(tpdata), &epev);
+			close(TPDATA_TFD_GET(tpdata));
 			tp_udata->tpdata = 0;
 			break;
 		}
@@ -1663,36 +1672,48 @@ tpt_ev_post_validate_args(int op, uint16_t event,
 
 int
 tpt_ev_add(tpt_p tpt, tp_event_p ev, tp_udata_p tp_udata) {
+	int error;
+	tpt_p tpt_old;
 
 	if (NULL == tp_udata || NULL == tpt) /* Do not damage live tp_udata. */
 		return (EINVAL);
-	tp_udata->tpt = tpt;
+	tpt_old = tp_udata->tpt;
+	tp_udata->tpt = tpt; /* The checks look at it. */
+	error = tpt_ev_validate(TP_CTL_ADD, ev, tp_udata);
+	if (0 != error) { /* Refused: live tp_udata stay on its thread. */
+		tp_udata->tpt = tpt_old;
+		return (error);
+	}
 
-	return (tpt_ev_post_validate(TP_CTL_ADD, ev, tp_udata));
+	return (tpt_ev_post(TP_CTL_ADD, ev, tp_udata));
 }
 
 int
 tpt_ev_add_args(tpt_p tpt, uint16_t event, uint16_t flags,
     uint32_t fflags, uint64_t data, tp_udata_p tp_udata) {
 
-	if (NULL == tp_udata || NULL == tpt) /* Do not damage live tp_udata. */
-		return (EINVAL);
-	tp_udata->tpt = tpt;
+	tp_event_t ev;
 
-	return (tpt_ev_post_validate_args(TP_CTL_ADD, event, flags,
-	    fflags, data, tp_udata));
+	ev.event = event;
+	ev.flags = flags;
+	ev.fflags = fflags;
+	ev.data = data;
+
+	return (tpt_ev_add(tpt, &ev, tp_udata));
 }
 
 int
 tpt_ev_add_args2(tpt_p tpt, uint16_t event, uint16_t flags,
     tp_udata_p tp_udata) {
 
-	if (NULL == tp_udata || NULL == tpt) /* Do not damage live tp_udata. */
-		return (EINVAL);
-	tp_udata->tpt = tpt;
+	tp_event_t ev;
 
-	return (tpt_ev_post_validate_args(TP_CTL_ADD, event, flags,
-	    0, 0, tp_udata));
+	ev.event = event;
+	ev.flags = flags;
+	ev.fflags = 0;
+	ev.data = 0;
+
+	return (tpt_ev_add(tpt, &ev, tp_udata));
 }
 
 int
